@@ -25,6 +25,7 @@ package memory
 
 import (
 	"fmt"
+	"slices"
 
 	"github.com/paulsonkoly/calc/types/dbginfo"
 	"github.com/paulsonkoly/calc/types/value"
@@ -87,7 +88,7 @@ func (m *Type) Clone(reuse *Type) *Type {
 	}
 
 	if len(m.fp) < 2 {
-		return &Type{sp: 0, fp: newFP, global: m.global, closure: m.closure, stack: newStack}
+		return &Type{sp: 0, fp: newFP, global: m.global, closure: slices.Clip(m.closure), stack: newStack}
 	}
 
 	fp := m.fp[len(m.fp)+localFP]
@@ -100,12 +101,12 @@ func (m *Type) Clone(reuse *Type) *Type {
 		reuse.sp = m.sp - fp
 		reuse.fp = newFP
 		reuse.global = m.global
-		reuse.closure = m.closure
+		reuse.closure = slices.Clip(m.closure)
 		reuse.stack = newStack
 		return reuse
 	}
 
-	return &Type{sp: m.sp - fp, fp: newFP, global: m.global, closure: m.closure, stack: newStack}
+	return &Type{sp: m.sp - fp, fp: newFP, global: m.global, closure: slices.Clip(m.closure), stack: newStack}
 }
 
 // CallDepth is the number of call frames.
